@@ -10,6 +10,19 @@ static A: mcx::alloc::Counting = mcx::alloc::Counting;
 
 fn main() {
     let ctx = Ctx::from_env("C13", "model_checking");
+    if ctx.extra_args.first().map(|s| s.as_str()) == Some("time") {
+        let t = std::time::Instant::now();
+        let m = c13_codec::message_corpus();
+        eprintln!("message_corpus {:?} ({})", t.elapsed(), m.len());
+        let t = std::time::Instant::now();
+        let _ = c13_codec::device(1);
+        eprintln!("device {:?}", t.elapsed());
+        let t = std::time::Instant::now();
+        let f = c13_codec::frame_corpus();
+        eprintln!("frame_corpus {:?} ({})", t.elapsed(), f.len());
+        for e in &f { eprintln!("{} {} {}", e.name, e.bytes.len(), e.big); }
+        return;
+    }
     if let Some(w) = ctx.replay_witness() {
         match c13_codec::replay(&w) {
             Some(vs) => ctx.finish_replay(vs),
